@@ -8,6 +8,7 @@ import (
 	"os"
 
 	"kzverif/gen"
+	"kzverif/kzfmt"
 	"kzverif/tr"
 )
 
@@ -37,4 +38,31 @@ func printAPI(evs []tr.Ev, all bool) {
 
 func init() {
 	commands["rerun-writer"] = cmdRerunWriter
+}
+
+// kzh parse <file>... : per stream, the skip flags of its blocks as seen by the independent parser
+func cmdParse(args []string) int {
+	for _, f := range args {
+		b, err := os.ReadFile(f)
+		if err != nil {
+			fmt.Printf("{\"file\":%q,\"err\":%q}\n", f, err.Error())
+			continue
+		}
+		st, perr := kzfmt.Parse(b, false, 0)
+		var skips []int
+		for _, blk := range st.Blocks {
+			if blk.Mode&0x80 != 0 {
+				skips = append(skips, 256)
+			} else {
+				skips = append(skips, int(blk.SkipFlags))
+			}
+		}
+		js, _ := json.Marshal(skips)
+		fmt.Printf("{\"file\":%q,\"ok\":%v,\"skips\":%s}\n", f, perr == nil, js)
+	}
+	return 0
+}
+
+func init() {
+	commands["parse"] = cmdParse
 }
